@@ -112,7 +112,8 @@ def make_event(e):
             g += bi * yi
         return float(g)
     ev.terminal = bool(e["terminal"])
-    ev.direction = float(e["dir"])
+    # SciPy reads only the sign of `direction`; the value handed over is sometimes fractional or larger than 1
+    ev.direction = float(e.get("pydir", e["dir"]))
     return ev
 
 
